@@ -73,3 +73,42 @@ extern "C" void h_swap2(void) {
   vf_assert(vf::blocks_live() == 0, 13007);
   vf_reach(1);
 }
+
+// the exchange is impossible because a size_type is too small for the other vector's size / capacity: must throw, both unchanged.
+// Operands: amc::vector<B, LA, uint8_t> (heap, small) and amc::vector<B, LA, uint32_t> with capacity 250..262 built directly.
+#ifdef SW_LIMIT
+typedef amc::BasicAllocatorWrapper<vf::B, vf::LedgerBasic> AL;
+typedef amc::vector<vf::B, AL, uint8_t> V8;
+typedef amc::vector<vf::B, AL, uint32_t> V32;
+VF_ACCESS_STD(AccL8, vf::B, AL, uint8_t)
+VF_ACCESS_STD(AccL32, vf::B, AL, uint32_t)
+extern "C" void h_swap2_limit(void) {
+  {
+    V8 a; V32 b;
+    uint8_t c8 = nd8(6); vf_assume(c8 >= 1); uint8_t s8 = nd8(c8 < 3 ? c8 : 3);
+    uint16_t c32 = static_cast<uint16_t>(250 + nd8(12)); uint16_t s32 = static_cast<uint16_t>(c32 - nd8(4));
+    vf::B *p8 = AL().allocate(c8); vf::B *p32 = AL().allocate(c32);
+    vf_havoc(p32, c32);
+    for (unsigned i = 0; i < 3; ++i) { if (i >= s8) break; p8[i] = nd8(); }
+    uint8_t a0 = p8[0], b0 = p32[0], bl = p32[s32 - 1];
+    vf::AccL8::capa(a) = c8; vf::AccL8::size(a) = s8; vf::AccL8::setDyn(a, p8);
+    vf::AccL32::capa(b) = c32; vf::AccL32::size(b) = s32; vf::AccL32::setDyn(b, p32);
+    uint8_t dir = nd8(1); int exc = 0;
+    try { if (dir) a.swap2(b); else b.swap2(a); } catch (const std::overflow_error &) { exc = 2; } catch (const std::out_of_range &) { exc = 3; }
+    bool impossible = c32 > 255;      // buffers would be exchanged: the 32-bit capacity does not fit the 8-bit size_type
+    if (impossible) {
+      vf_assert(exc == 2, 13001);
+      vf_assert(a.size() == s8 && a.capacity() == c8 && a.data() == p8 && b.size() == s32 && b.capacity() == c32 && b.data() == p32, 13002);
+      vf_assert((s8 == 0 || a[0] == a0) && b[0] == b0 && b[s32 - 1] == bl, 13002);
+      vf_reach(2);
+    } else {
+      vf_assert(exc == 0, 13003);
+      vf_assert(a.size() == s32 && b.size() == s8 && a.capacity() == c32 && b.capacity() == c8, 13004);
+      vf_assert(a[0] == b0 && a[static_cast<uint8_t>(s32 - 1)] == bl && (s8 == 0 || b[0] == a0), 13004);
+      vf_reach(3);
+    }
+  }
+  vf_assert(vf::g_abad == 0 && vf::blocks_live() == 0, 13007);
+  vf_reach(1);
+}
+#endif
